@@ -332,8 +332,11 @@ class PiecewiseConstantBirthDeath(Distribution):
         y = times[..., -1:] - tip_heights
 
         if serially_sampled:
+            # a tip sampled exactly at t_i belongs to the epoch that ends there: it is
+            # not counted among the lineages crossing t_i (ni below) and it is the
+            # rho of that epoch that decides whether it is a rho-tip
             indices_y = torch.clamp(
-                torch.searchsorted(times, y, right=True) - 1, max=m - 1
+                torch.searchsorted(times, y, right=False) - 1, min=0, max=m - 1
             )
             # true if the node of the given index occurs at the time of a
             # rho-sampling event
